@@ -74,3 +74,112 @@ Definition gfailing cs := gfailing_from 0 cs.
 (* for replays: what the model computes *)
 Definition model_view (h : list stmt) : list (nat * list (option zvec)) :=
   map (fun so => (outcome_code (snd so), g_grad (fst so))) (run_states g_init h).
+
+(* ------------------------------------------------------------------------------------------------
+   C07: which tensors are kept alive by strong references.  Strong edges: tensor -> its creator -> the
+   creator's input tensors, as long as the creator has not been cleared.  (Consumers and view children are
+   weak references.)  alive = closure of the caller's roots under those edges. *)
+(* Tensor._base: the memory owner of a view.  Rules of Tensor._op (tensor_base.py:1155-1167): a view's base is its
+   parent's base (or the parent); a tensor whose creator is gone loses its base the next time it enters an operation. *)
+Definition view_parent (o : zcop) : nat := match c_args Z o with a :: _ => c_src a | [] => 0 end.
+Definition step_bases (st : gstate) (bases : list (option nat)) (s : stmt) : list (option nat) :=
+  match s with
+  | SLeaf _ _ => bases ++ [None]
+  | SApp _ vw o =>
+      let srcs := map c_src (c_args Z o) in
+      if negb (forallb (fun i => Nat.ltb i (length (g_vals st))) srcs) then bases else
+      let drop (b : list (option nat)) (i : nat) :=
+        match nth i b None with
+        | Some _ => if creator_none st i then set_nth b i None else b
+        | None => b
+        end in
+      let bases1 := fold_left drop srcs bases in
+      let p := view_parent o in
+      bases1 ++ [if vw then Some (match nth p bases1 None with Some b => b | None => p end) else None]
+  | _ => bases
+  end.
+Fixpoint bases_after (st : gstate) (bases : list (option nat)) (h : list stmt) : list (option nat) :=
+  match h with
+  | [] => bases
+  | s :: h' => bases_after (fst (exec_stmt st s)) (step_bases st bases s) h'
+  end.
+
+Fixpoint mark_alive (fuel : nat) (P : list znode) (bases : list (option nat)) (k : nat) (acc : list bool) : list bool :=
+  match fuel with
+  | O => acc
+  | S f =>
+      if nth k acc false then acc
+      else let acc := set_nth acc k true in
+           let acc := fold_left (fun a i => mark_alive f P bases i a) (inputs Z P k) acc in
+           match nth k bases None with Some b => mark_alive f P bases b acc | None => acc end
+  end.
+Definition alive_set (st : gstate) (bases : list (option nat)) (roots : list nat) : list bool :=
+  let n := length (g_vals st) in
+  fold_left (fun a r => mark_alive (S (S n)) (g_eff st) bases r a) roots (repeat false n).
+
+(* (history, roots kept by the caller, expected liveness per tensor: None = not observed) *)
+Definition lcase := (list stmt * list nat * list (option bool))%type.
+Fixpoint live_ok_from (alive : list bool) (k : nat) (es : list (option bool)) : bool :=
+  match es with
+  | [] => true
+  | None :: es' => live_ok_from alive (S k) es'
+  | Some b :: es' => Bool.eqb (nth k alive false) b && live_ok_from alive (S k) es'
+  end.
+Definition lcase_ok (c : lcase) : bool :=
+  let '(h, roots, es) := c in
+  let st := fst (run_hist g_init h) in
+  live_ok_from (alive_set st (bases_after g_init [] h) roots) 0 es.
+Fixpoint lfailing_from (i : nat) (cs : list lcase) : list nat :=
+  match cs with
+  | [] => []
+  | c :: cs' => if lcase_ok c then lfailing_from (S i) cs' else i :: lfailing_from (S i) cs'
+  end.
+Definition lfailing cs := lfailing_from 0 cs.
+
+(* ------------------------------------------------------------------------------------------------
+   C09: the property oracle evaluated with the proved model.  For a backward statement (the i-th model
+   statement, on tensor t) that returned normally in the implementation: the gradients the implementation
+   holds afterwards, for every tensor in L's cone of the graph AS RECORDED, must be those of a backward pass
+   over the recorded computation alone (all earlier backward / clear_graph / null_grad statements removed). *)
+Definition is_build (s : stmt) : bool := match s with SLeaf _ _ | SApp _ _ _ => true | _ => false end.
+Definition recorded (h : list stmt) : list stmt := filter is_build h.
+
+(* the finding predicate of C09 (the exact negation of the side condition of C09's partial theorem):
+   a tensor whose creator was cleared is in L's traversal and has been re-used (consumer set refilled) *)
+Definition stale_refill (st : gstate) (t : nat) : bool :=
+  existsb (fun k => negb (Nat.eqb k t) && nth k (g_cleared st) false &&
+                    match nth k (g_nodes st) (Leaf Z true) with App _ _ _ => true | Leaf _ _ => false end &&
+                    nth k (g_hasops st) false)
+          (order_of st t).
+(* L's own creator was cleared before (L.backward() twice, or clear_graph on L): outside the property *)
+Definition own_graph_cleared (st : gstate) (t : nat) : bool :=
+  nth t (g_cleared st) false &&
+  match nth t (g_nodes st) (Leaf Z true) with App _ _ _ => true | Leaf _ _ => false end.
+
+(* (history, index i of the backward statement, its tensor, its seed, observed gradients after it) ->
+   0 = consistent with "exact as recorded", 1 = not exact and stale_refill holds (known finding class),
+   2 = not exact, no stale refill (a different violation), 3 = out of scope (own graph cleared / constant) *)
+Definition c9case := (list stmt * nat * nat * option zvec * list (option (option zvec)))%type.
+Fixpoint grads_match_on (order : list nat) (ref : list (option zvec)) (obs : list (option (option zvec))) : bool :=
+  match order with
+  | [] => true
+  | k :: rest =>
+      match nth k obs None with
+      | None => true
+      | Some g => ograd_eqb (nth k ref None) g
+      end && grads_match_on rest ref obs
+  end.
+Definition c9class (c : c9case) : nat :=
+  let '(h, i, t, seed, obs) := c in
+  let pre := firstn i h in
+  let st := fst (run_hist g_init pre) in
+  if n_const st t || own_graph_cleared st t then 3
+  else
+    let rst := fst (run_hist g_init (recorded pre)) in
+    let '(rst', ro) := do_backward rst t seed in
+    match ro with
+    | Ok => if grads_match_on (order_of rst t) (g_grad rst') obs then 0
+            else if stale_refill st t then 1 else 2
+    | _ => 2
+    end.
+Definition c9classes (cs : list c9case) : list nat := map c9class cs.
